@@ -359,7 +359,7 @@ class Model:
         else:
             if not -128 <= fill <= 255:
                 raise ModelError("fill")
-            if gap > 200:
+            if gap * self.gran() > 16000:
                 raise ModelError("fill area too long for one statement")
             e.lines.append("\talign %d,%d" % (n, fill))
             g = self.gran()
